@@ -31,7 +31,7 @@ def run(prop, tier, seed, t0):
     nrt = (48, 4) if thorough else (8, 2)
     R.run_sharded(res, exes[1], ['ringonly=1', 'nsched=%d' % nrt[1]], nrt[0] * nrt[1], env=env, label='h_c11/tsan', variant='tsan', first=30_000_000, wall=1800 if thorough else 600)
     cov = {
-        'evaluations': res.stat('schedules'), 'ring_lap_workloads': res.stat('ring_lap_workloads'), 'broadcasts_with_several_waiters': res.stat('broadcasts_with_several_waiters'), 'signals_with_several_waiters': res.stat('signals_with_several_waiters'), 'distinct_nontrivial': res.stat('distinct_schedules'),
+        'evaluations': res.stat('schedules'), 'ring_lap_workloads': res.stat('ring_lap_workloads'), 'mid_frame_level_raise_on_far_repeat_workloads': res.stat('far_repeat_level_raise_workloads'), 'broadcasts_with_several_waiters': res.stat('broadcasts_with_several_waiters'), 'signals_with_several_waiters': res.stat('signals_with_several_waiters'), 'distinct_nontrivial': res.stat('distinct_schedules'),
         'rule': 'MT workloads (nbWorkers 1..6, jobSize min / 1-3 MiB (several chunks per job) / default, overlapLog 0..9, rsyncable, LDM, checksum, dictionary/prefix, levels, strategies) x scripts indexed by input offset with small output windows, mid-frame authorised parameter changes, reset mid-frame with jobs in flight then reuse, shared thread pool, progression polling; '
                 'each workload under many seeded schedules (uniform and PCT) of the serialising scheduler: deadlock = no runnable thread, livelock = step bound, every frame verified by the library decoder and R (checksum by own XXH64), output compared byte for byte with the reference schedule; plus ASan under the scheduler and TSan with real threads + seeded delays. '
                 'distinct non-trivial = distinct (workload, hash of the full (thread, op, object) event sequence) interleavings executed',
